@@ -10,6 +10,8 @@ CONSTANTS
   FlushMax = TRUE
   FoldCancel = TRUE
   SpillCut = TRUE
+  LateSnapshot = FALSE
+  LateSnapFetch = FALSE
   SplitAppend = FALSE
   Gen = TRUE
   PrintCex = FALSE
